@@ -608,11 +608,55 @@ func runWHChild(c *Ctx, rule string) {
 					}
 				}
 			}
+			// ... and what the constructor derives from an option-settable field (the column objects are built for the
+			// configured codec) is derived after the options ran: a read before them sees only the default
+			for _, b := range inner.Blocks {
+				reaches := false
+				for _, x := range reachableBlocks(b) {
+					for _, oc := range optCalls {
+						if oc.Block() == x {
+							reaches = true
+						}
+					}
+				}
+				for i, ins := range b.Instrs {
+					ld, ok := ins.(*ssa.UnOp)
+					if !ok || ld.Op != token.MUL {
+						continue
+					}
+					f := fieldOf(ld.X)
+					if f == nil || !settable[f] {
+						continue
+					}
+					early := reaches
+					if !early {
+						for _, later := range b.Instrs[i+1:] {
+							for _, oc := range optCalls {
+								if later == oc {
+									early = true
+								}
+							}
+						}
+					}
+					if !early {
+						continue
+					}
+					onlyTests := true
+					for _, ref := range *ld.Referrers() {
+						if bo, ok := ref.(*ssa.BinOp); !ok || (bo.Op != token.EQL && bo.Op != token.NEQ) {
+							onlyTests = false
+						}
+					}
+					if !onlyTests {
+						bad = append(bad, fmt.Sprintf("%s is read at %s before the options ran: what is built from it uses the default, not the configured value", f.Name(), u.Pos(ld.Pos())))
+					}
+				}
+			}
 			r.count(rule+"/constructors", 1)
 			if len(optCalls) == 0 {
 				r.undecided(rule, key, u.Pos(inner.Pos()), "newParquetWriter does not apply its options")
 			} else if len(bad) > 0 {
-				r.bad(rule, key, u.Pos(inner.Pos()), strings.Join(bad, "; ")+": the writer created for the next page does not keep what it inherits (its pages are accounted in a metadata object that never reaches the footer)")
+				r.bad(rule, key, u.Pos(inner.Pos()), strings.Join(bad, "; ")+": the writer does not end up with what its options (for the next page's writer: its parent) configured")
 			} else {
 				r.ok(rule, key, u.Pos(inner.Pos()), "after the options ran, option-settable fields are only filled when still unset")
 			}
